@@ -12,10 +12,14 @@
 //!        -> ERR <code> | PANIC <site> |
 //!           OK <debug-of-value> ## <hex of value.into_bytes()> ## <rt>
 //!           rt = 1 if from_bytes(into_bytes(v)) == Ok(v), 0 if it is Ok but different, E<code> if Err
-//!   enc <policy> <args..>  per-policy XCDR1-LE encoder (value bytes of the parameter, before padding)
-//!        -> OK <hex>
-//!   ann <domain_id> <tag-hex> <prefix-hex> <userdata: len fill | hex> <nloc> ...
-//!        end-to-end SPDP announcement -> OK <hex of announced bytes> ## <debug of decoded> | ...
+//!   enc <policy> <args..>  per-policy XCDR1-LE encoder of the crate (`serialize`, encapsulation header dropped):
+//!        the value bytes of the parameter, padded to a multiple of 4   -> OK <hex>
+//!   ann <domain_id> <tag-hex> <prefix-hex(12)> (fill <len> <byte> | hex <hex>) <mu> <mm> <du> <dm>
+//!        (each locator list: <n> then n x (<kind> <port> <addr-hex(16)>))
+//!        end-to-end SPDP announcement: a DcpsDomainParticipant with this domain id / tag / guid prefix /
+//!        user_data QoS / transport locators calls announce_participant; the bytes found in the SPDP
+//!        writer's history cache are printed and decoded again
+//!        -> OK <hex of announced bytes> ## <result of `dec p` on them>
 use dust_dds::builtin_topics::BuiltInTopicKey;
 use dust_dds::dcps::data_representation_builtin_endpoints::{
     discovered_reader_data::DiscoveredReaderData, discovered_topic_data::DiscoveredTopicData,
